@@ -28,6 +28,22 @@ CLAIMED = {
                 "(both only lead to ordinary read errors). File lengths are assumed below 2^63.",
         "design": "4/C05",
     },
+    "C06": {
+        "rules": "R-SEQ (reader == writer == frozen format description), R-LAYOUT, R-NOPAD, R-NARROW, R-SIB, R-WRITESET, R-GUARD, R-CONST, de Bruijn table",
+        "text": "Static analysis of the map serialiser pair: Map::Write, Map::ReadMap and spec/map.seq.json yield the same "
+                "token tree (every field, order, width, size prefix and the data-dependent condition on the tileset name, "
+                "with callees inlined over the resolved call graph); every record written has the documented layout and no "
+                "padding; every size prefix and the header's tileset count are range-checked before narrowing; header "
+                "fields are rebuilt from / copied to the members of the same meaning and the width goes through the "
+                "checked log2 table; each public edit writes exactly the member it names through the same path its "
+                "getter reads, with a refusal that is exactly 'value > Tube5'; writing is callable on const maps. These "
+                "hold for every map because they are facts about the two serialisers' code, the only place where a "
+                "field could be dropped, widened or reordered.",
+        "note": "Declined: value equality of the re-read map and byte equality with the input. The format description "
+                "was written from the Outpost 2 format notes (DESIGN.md Appendix A) and is the frozen reference that "
+                "makes a symmetric drift of reader and writer visible.",
+        "design": "4/C06",
+    },
     "C12": {
         "rules": "R-ATOMIC, R-NOWRAP, R-CURSOR, R-COUNT, R-MUSTCALL, R-SEQ(helper lengths)",
         "text": "Static analysis (clang AST + CFG must-dataflow) of the memory and slice readers: every bounds guard "
